@@ -107,6 +107,14 @@ theorem C12_result_is_sequential (c : Cfg) (hn : 0 < c.n) (s : State) (h : Reach
     have : s.cpc = .final := by simpa [isFinal] using hf
     simp [this, termPhase]))
 
+/-- **What is chosen**: `selectSeq` (hence, by `C12_result_is_sequential`, every run with any number of workers under
+    any schedule) picks the first trial index `k ≥ 1` — i.e. the longest step — whose residual is below the residual of
+    the current solution (index 0), else the last index; `feasible` tells which. (`n_alpha ≥ 2` always.) -/
+theorem C12_select_spec (less : Nat → Nat → Bool) (m : Nat) (hm : 2 ≤ m) :
+    ∃ k, 1 ≤ k ∧ k < m ∧ selectSeq less m = (some 0, some (some k, less k 0)) ∧
+      (less k 0 = true ∨ k = m - 1) ∧ ∀ j, 1 ≤ j → j < k → less j 0 = false ∧ j ≠ m - 1 :=
+  selectSeq_spec less m hm
+
 /-- **Schedule independence**: two runs of the same configuration (any interleaving, any spurious wake-ups) that
     return, return the same choice. -/
 theorem C12_result_schedule_independent (c : Cfg) (hn : 0 < c.n) (s1 s2 : State) (h1 : Reach c s1) (h2 : Reach c s2)
